@@ -103,10 +103,22 @@ def check_sym_table(tlc_output):
     if set(seen) != set(syms):
         raise MachineryError(f"symmetry table of the spec {sorted(seen)} != harness table {sorted(syms)}")
     for g, (R, TR, Inv) in seen.items():
-        s = syms[g]
-        if np.abs(np.array(R, dtype=float) - s.R).max() > 1e-12 or bool(s.TR) != TR or bool(s.Inv) != Inv:
-            raise MachineryError(f"point operation {g}: spec {(R, TR, Inv)} differs from the real object {s.R.tolist(), s.TR, s.Inv}")
+        full, tr = sym_full_matrix(syms[g])
+        if np.abs(np.array(R, dtype=float) * (-1 if Inv else 1) - full).max() > 1e-12 or tr != TR:
+            raise MachineryError(f"point operation {g}: spec {(R, TR, Inv)} differs from the real object {full.tolist(), tr}")
     return sorted(seen)
+
+
+def sym_full_matrix(s):
+    """(full 3x3 matrix incl. the inversion, TR) of a real PointSymmetry: through as_dict(), else through R / Inv / TR"""
+    try:
+        d = s.as_dict()
+        return np.array(d["R"], dtype=float), bool(d["TR"])
+    except Exception:
+        try:
+            return np.array(s.R, dtype=float) * (-1 if s.Inv else 1), bool(s.TR)
+        except Exception as ex:
+            raise MachineryError(f"cannot read the matrix of a PointSymmetry object: {type(ex).__name__}: {ex}")
 
 
 def make_transform(t):
@@ -158,6 +170,9 @@ class NonIntegral(Exception):
     pass
 
 
+SKIPPED_PRIVATE = set()      # private names of the package that were not found (the check degrades, it does not crash)
+
+
 def proj_data(arr):
     a = np.asarray(arr)
     flat = a.reshape(-1)
@@ -184,7 +199,7 @@ def project(r):
     if isinstance(r, VoidResult):
         return dict(kind="V")
     if isinstance(r, EnergyResult):
-        ne = r.N_energies
+        ne = len(r.Energies)
         en = []
         for e in r.Energies:
             e = np.asarray(e, dtype=float)
@@ -195,8 +210,12 @@ def project(r):
                     en=tuple(en), titles=tuple(str(x) for x in r.E_titles), tTR=proj_transform(r.transformTR),
                     tInv=proj_transform(r.transformInv), comment=str(r.comment))
     if isinstance(r, KBandResult):
-        d = r.data_list
-        full = np.vstack(d) if len(d) > 1 else d[0]          # do not touch r.data (it merges data_list)
+        d = getattr(r, "data_list", None)                    # private; reading r.data instead merges the chunks
+        if isinstance(d, (list, tuple)) and len(d) > 0:
+            full = np.vstack(list(d)) if len(d) > 1 else np.asarray(d[0])
+        else:
+            SKIPPED_PRIVATE.add("K__Result.data_list")
+            full = np.asarray(r.data)
         return dict(kind="K", nb=int(full.shape[1]), rank=int(r.rank), nk=int(full.shape[0]), data=proj_data(full),
                     tTR=proj_transform(r.transformTR), tInv=proj_transform(r.transformInv))
     if isinstance(r, ResultDict):
@@ -227,7 +246,10 @@ def norm_t(t):
     return dict(factor=t["factor"], conj=t["conj"], tr=tuple(t["tr"]), sw=tuple(t["sw"]))
 
 
-def diff_fields(exp, got, prefix=""):
+META = ("comment", "titles")     # demanded only of a reloaded result (and there against the saved real object)
+
+
+def diff_fields(exp, got, prefix="", ignore=META):
     """names of the fields in which two projections differ"""
     if exp.get("kind") != got.get("kind"):
         return [prefix + "kind"]
@@ -236,9 +258,9 @@ def diff_fields(exp, got, prefix=""):
         if set(exp["items"]) != set(got["items"]):
             return [prefix + "keys"]
         for k in exp["items"]:
-            bad += diff_fields(exp["items"][k], got["items"][k], prefix + k + ".")
+            bad += diff_fields(exp["items"][k], got["items"][k], prefix + k + ".", ignore)
         return bad
-    return [prefix + f for f in exp if exp[f] != got.get(f)]
+    return [prefix + f for f in exp if f not in ignore and exp[f] != got.get(f)]
 
 
 def jsonable(x):
@@ -260,7 +282,7 @@ def sig(o):
 CLASS = {"E": "EnergyResult", "K": "KBandResult", "D": "ResultDict", "V": "VoidResult"}
 METHOD = dict(Add="__add__", Sub="__sub__", AddInPlace="add", Mul="__mul__", Div="__truediv__", AddVoidRight="__add__",
               AddVoidLeft="__add__", SubVoidRight="__sub__", SubVoidLeft="__sub__", Transform="transform", SaveNpz="save",
-              SaveVoid="save", LoadNpz="from_npz")
+              SaveVoid="save", LoadNpz="from_npz", AddZeroLeft="__radd__", AddNoneRight="__add__", MulArray="mul_array")
 
 
 def where_raised(ex):
@@ -305,6 +327,16 @@ def apply_op(ev, objs, files, step, scratch):
         return a - VoidResult()
     if op == "SubVoidLeft":
         return VoidResult() - a
+    if op == "AddZeroLeft":
+        return 0 + a
+    if op == "AddNoneRight":
+        return a + None
+    if op == "MulArray":
+        # s = 1-based axis; the first axis is also reached through axes=None every other step
+        v = np.array(ev["v"], dtype=float)
+        if s == 1 and step % 2 == 1:
+            return a.mul_array(v)
+        return a.mul_array(v, axes=s - 1)
     if op == "Transform":
         return a.transform(real_syms()[g])
     if op in ("SaveNpz", "SaveVoid"):
@@ -318,29 +350,45 @@ def apply_op(ev, objs, files, step, scratch):
 
 
 def read_npz(path):
-    """the real file -> the fields of the abstract file of the spec (SaveNpz)"""
-    res = np.load(open(path, "rb"), allow_pickle=True)
-    if "type" in res and str(res["type"]) == "VoidResult":
-        return dict(type="VoidResult", comment=str(res["comment"]))
-    titles = tuple(str(x) for x in res["E_titles"])
-    en = []
-    for k in range(len(titles)):
-        en.append(tuple(int(x) for x in np.rint(res[f"Energies_{k}"])))
+    """the real file -> the fields of the abstract file of the spec (SaveNpz).  Information only (the layout of the file
+    is not part of the property): a field that cannot be read is reported as "<missing>" / "<unreadable>", never raised."""
+    try:
+        res = np.load(open(path, "rb"), allow_pickle=True)
+        names = set(res.files)
+    except Exception as ex:
+        return dict(type=f"<unreadable: {type(ex).__name__}>")
+    if "type" in names and str(res["type"]) == "VoidResult":
+        return dict(type="VoidResult")
+
+    def field(f):
+        try:
+            return f()
+        except NonIntegral:
+            return "<non-integral>"
+        except Exception:
+            return "<missing>"
 
     def td(key):
         d = res[key].item()
         return dict(conj=bool(d["conj"]), factor=int(d["factor"]),
                     transpose_axes=tuple(d["transpose_axes"]) if d["transpose_axes"] is not None else (),
                     swap_axes=tuple(d["swap_axes"]) if d["swap_axes"] is not None else ())
-    data = res["data"]
-    rank = int(res["rank"])
-    return dict(type="EnergyResult", E_titles=titles, data=proj_data(data), dshape=tuple(data.shape[:data.ndim - rank]), rank=rank,
-                transformTR=td("transformTR"), transformInv=td("transformInv"), comment=str(res["comment"]), Energies=tuple(en))
+    titles = field(lambda: tuple(str(x) for x in res["E_titles"]))
+    rank = field(lambda: int(res["rank"]))
+    return dict(type="EnergyResult", E_titles=titles, data=field(lambda: proj_data(res["data"])),
+                dshape=field(lambda: tuple(res["data"].shape[:res["data"].ndim - rank])), rank=rank,
+                transformTR=field(lambda: td("transformTR")), transformInv=field(lambda: td("transformInv")),
+                comment=field(lambda: str(res["comment"])),
+                Energies=field(lambda: tuple(tuple(int(x) for x in np.rint(res[f"Energies_{k}"])) for k in range(len(titles)))))
+
+
+def file_is_readable(f):
+    return f.get("type") in ("VoidResult", "EnergyResult") and not any(isinstance(v, str) and v.startswith("<") for k, v in f.items() if k not in ("comment", "type"))
 
 
 def expected_file(f):
     if f["type"] == "VoidResult":
-        return dict(type="VoidResult", comment=f["comment"])
+        return dict(type="VoidResult")                      # the text of its comment is not compared
     return dict(type="EnergyResult", E_titles=tuple(f["E_titles"]), data=tuple(tuple(x) for x in f["data"]), dshape=tuple(f["dshape"]),
                 rank=f["rank"], transformTR={k: (tuple(v) if isinstance(v, tuple) else v) for k, v in f["transformTR"].items()},
                 transformInv={k: (tuple(v) if isinstance(v, tuple) else v) for k, v in f["transformInv"].items()},
@@ -375,12 +423,28 @@ def rec_obj(p):
 _SMOOTHERS = {}
 
 
+class PrivateGone(Exception):
+    """the private protocol of AbstractSmoother (__init__(E, smear, maxdE), _broaden, dE, NE1, smt, _params) through
+    which the harness injects the integer kernels of the specification is not there any more"""
+
+
 def int_kernel_smoother(kernel, ne):
-    """cached per (kernel, ne): results that are added must carry equal smoothers (same class, same parameters)"""
+    """cached per (kernel, ne): results that are added must carry equal smoothers (same class, same parameters).
+    Raises PrivateGone when the private protocol changed (the callers skip the exact-kernel sub-checks then)."""
     key = (tuple(kernel), ne)
     if key not in _SMOOTHERS:
-        _SMOOTHERS[key] = _int_kernel_smoother(list(kernel), ne)
+        try:
+            _SMOOTHERS[key] = _int_kernel_smoother(list(kernel), ne)
+        except MachineryError as ex:
+            raise PrivateGone(str(ex))
+        except (AttributeError, TypeError, IndexError, ValueError) as ex:
+            raise PrivateGone(f"{type(ex).__name__}: {ex}")
     return _SMOOTHERS[key]
+
+
+def response_matrix(sm, ne, dtype=float):
+    """black box: M[i, j] = sm(e_j)[i] - how a smoother acts, without looking inside it"""
+    return np.array(sm(np.eye(ne, dtype=dtype), axis=0))
 
 
 def _int_kernel_smoother(kernel, ne):
